@@ -83,7 +83,45 @@ func (x *Xlat) havocLoop(st *State, fr *Frame, out *Outcomes, nodes ...ast.Node)
 				x.havocPlace(st, out, p, n.Pos())
 			}
 		}
+		// calls through closure-bound variables (function parameters bound to a caller's function literal):
+		// the literal's effects, including assignments to the variables it captured, happen in this loop too
+		x.havocBoundClosureCalls(st, fr, n, map[*ast.FuncLit]bool{})
 	}
+}
+
+func (x *Xlat) havocBoundClosureCalls(st *State, fr *Frame, n ast.Node, seen map[*ast.FuncLit]bool) {
+	info := fr.info()
+	ast.Inspect(n, func(nd ast.Node) bool {
+		ce, ok := nd.(*ast.CallExpr)
+		if !ok {
+			return true
+		}
+		var ids []*ast.Ident
+		if id, ok := ast.Unparen(ce.Fun).(*ast.Ident); ok {
+			ids = append(ids, id)
+		}
+		for _, a := range ce.Args {
+			if id, ok := ast.Unparen(a).(*ast.Ident); ok {
+				ids = append(ids, id)
+			}
+		}
+		for _, id := range ids {
+			v, ok := info.ObjectOf(id).(*types.Var)
+			if !ok {
+				continue
+			}
+			c, ok := fr.lookupClosure(v)
+			if !ok || seen[c.lit] {
+				continue
+			}
+			seen[c.lit] = true
+			x.havocClosureEffects(st, c)
+			// the literal may in turn call closures bound in its own defining frame
+			sub := *c.frame
+			x.havocBoundClosureCalls(st, &sub, c.lit.Body, seen)
+		}
+		return true
+	})
 }
 
 type loopCtx struct {
